@@ -1008,3 +1008,130 @@ impl<'a> Lower<'a> {
         Ok(Lower { len: frames, bitfields: &[], children: &[] })
     }
 }
+
+// ---------------------------------------------------------------------------------------------
+// C01 / C03 / C05 / C21 under ALL interleavings, lower allocator, orders below the huge order:
+// the counter-then-bits protocol of Lower::get_at / Lower::put (put_small) on one huge frame against
+// the rely/guarantee environment (rows of the frame's bitfield + its counter entry).
+//   get_at : Ok => this thread owns exactly the block and holds no reserved unit;
+//            Err => owns what it owned, holds no reserved unit (the undo `unwrap` cannot fail)
+//   put    : of a held block => Ok, ownership shrank by the block, no pending unit ("Inc failed"
+//            cannot fire)
+// ---------------------------------------------------------------------------------------------
+use crate::atomic::verif_contracts::{cenv, env};
+
+fn rg_lower_start<const H: usize>(st: &LState, snap: &LSnap) -> Rows {
+    let a = any_rows();
+    let mut own = [0u64; ROWS];
+    let mut bits = 0usize;
+    for_rows!(r, {
+        own[r] = a[r] & snap.rows[H][r];
+        bits += own[r].count_ones() as usize;
+    });
+    unsafe {
+        env::BASE = crate::bitfield::verif_contracts::row_ptr(&st.bfs[H]) as usize;
+        env::NWORDS = ROWS;
+        let mut r = 0;
+        while r < ROWS && r < env::MAXW {
+            env::OWN[r] = own[r];
+            r += 1;
+        }
+        env::BUDGET = kani::any();
+        env::UNITS_ON = true;
+        env::RES = 0;
+        env::PEND = 0;
+        env::OWNED_BITS = bits;
+        env::ON = true;
+        cenv::PTR = &st.ch[H / TREE_HUGE][H % TREE_HUGE] as *const Atom<HugeEntry> as usize;
+        cenv::ON = true;
+    }
+    own
+}
+fn rg_lower_own() -> Rows {
+    let mut o = [0u64; ROWS];
+    let mut r = 0;
+    while r < ROWS && r < env::MAXW {
+        o[r] = unsafe { env::OWN[r] };
+        r += 1;
+    }
+    o
+}
+fn rg_lower_state() -> (LState, LSnap) {
+    let rows: [Rows; NBF] = core::array::from_fn(|_| any_rows());
+    let ent: [u16; NBF] = kani::any();
+    let st = LState::from(&rows, &ent);
+    (st, LSnap { rows, ent, z: [0; NBF] })
+}
+
+fn rg_lower_get_at<const ORDER: usize, const H: usize>() {
+    let (st, snap) = rg_lower_state();
+    let own0 = rg_lower_start::<H>(&st, &snap);
+    kani::assume(cenv::admissible(snap.ent[H]));
+    let lower = st.lower_shaped::<NBF>(NT * TREE_FRAMES);
+    let f = any_block_in::<ORDER, H>();
+    let b = blk(f % LEN, ORDER);
+    let r = lower.get(RowId(0), ORDER, Some(FrameId(f)));
+    let own = rg_lower_own();
+    vcover!(r.is_ok(), "targeted allocation under interference succeeds");
+    vcover!(r.is_err(), "targeted allocation under interference fails");
+    clause!(unsafe { env::RES } == 0 && unsafe { env::PEND } == 0, "C05: a completed call leaves no counter unit reserved or pending");
+    if r.is_ok() {
+        clause!(blk_all(&own0, &b, false) && rows_with_blk(&own0, &own, &b, true), "C01: a successful allocation owns exactly the returned block, under every interleaving");
+    } else {
+        clause!(rows_eq(&own0, &own), "C01: a failed allocation keeps nothing, under every interleaving");
+    }
+}
+fn rg_lower_put<const ORDER: usize, const H: usize>() {
+    let (st, snap) = rg_lower_state();
+    let own0 = rg_lower_start::<H>(&st, &snap);
+    kani::assume(cenv::admissible(snap.ent[H]));
+    let lower = st.lower_shaped::<NBF>(NT * TREE_FRAMES);
+    let f = any_block_in::<ORDER, H>();
+    let b = blk(f % LEN, ORDER);
+    kani::assume(blk_all(&own0, &b, true)); // the caller holds the block
+    let r = lower.put(FrameId(f), ORDER);
+    let own = rg_lower_own();
+    clause!(r.is_ok(), "C03: the free of a held block succeeds under every interleaving");
+    clause!(rows_with_blk(&own0, &own, &b, false), "C01: a free releases exactly the block");
+    clause!(unsafe { env::RES } == 0 && unsafe { env::PEND } == 0, "C05: a completed free leaves no counter unit pending");
+}
+macro_rules! rg_lower_harness {
+    ($f:ident, $($name:ident: ($o:expr, $h:expr)),+) => {
+        $(
+        #[kani::proof]
+        #[kani::unwind(10)]
+        #[kani::solver(kissat)]
+        #[kani::stub(crate::atomic::Atom::load, crate::atomic::Atom::load_rg)]
+        #[kani::stub(crate::atomic::Atom::store, crate::atomic::Atom::store_rg)]
+        #[kani::stub(crate::atomic::Atom::compare_exchange, crate::atomic::Atom::compare_exchange_rg)]
+        #[kani::stub(crate::atomic::Atom::try_update, crate::atomic::Atom::try_update_rg)]
+        fn $name() {
+            $f::<$o, $h>();
+        }
+        )+
+    };
+}
+rg_lower_harness!(rg_lower_get_at, rg_lower_get_at_o0_h1: (0, 1), rg_lower_get_at_o3_h1: (3, 1), rg_lower_get_at_o6_h1: (6, 1), rg_lower_get_at_o7_h1: (7, 1), rg_lower_get_at_o8_h1: (8, 1));
+rg_lower_harness!(rg_lower_put, rg_lower_put_o0_h1: (0, 1), rg_lower_put_o3_h1: (3, 1), rg_lower_put_o6_h1: (6, 1), rg_lower_put_o7_h1: (7, 1), rg_lower_put_o8_h1: (8, 1));
+
+/// C03 (known finding F2): the state a peer leaves when it stalls inside `partial_put_huge` between
+/// filling the bitfield and clearing the marker (marker set, bitfield all ones). A second holder of a
+/// part of the same whole-allocated huge frame that frees its part now must not panic and must
+/// succeed - but the bounded spin-wait gives up after RETRIES polls and panics.
+#[kani::proof]
+#[kani::unwind(10)]
+#[kani::stub(crate::atomic::Atom::try_update, crate::atomic::Atom::try_update_seq)]
+#[kani::stub(core::hint::spin_loop, crate::util::verif_contracts::spin_loop_model)]
+fn c03_partial_put_peer_stalled() {
+    let rows: [Rows; NBF] = core::array::from_fn(|_| any_rows());
+    let mut ent: [u16; NBF] = kani::any();
+    let mut rows = rows;
+    rows[1] = [u64::MAX; ROWS];
+    ent[1] = u16::MAX;
+    let st = LState::from(&rows, &ent);
+    let lower = st.lower_shaped::<NBF>(NT * TREE_FRAMES);
+    let off: usize = kani::any();
+    kani::assume(off < LEN);
+    let r = lower.put(FrameId(LEN + off), 0);
+    clause!(r.is_ok(), "C03: the free of a held part of a split huge frame succeeds");
+}
